@@ -8,8 +8,7 @@ from oracle import DatasetView, LeanOracle, amaku_solution, eval_adaptive
 
 NEEDS_DATASET = True
 TARGETS = ["RdVerif.Props.C01", "RdVerif.Props.C04"]
-THEOREMS = ["C01_exact", "C01_closed_form", "C01_stable", "C01_oracle_factor", "exact_inverses", "exact_diagonalises",
-            "pattern_is_ancestors", "float_aggregate_bound"]
+THEOREMS = ["RdVerif.C01.C01_exact", "RdVerif.C01.C01_closed_form", "RdVerif.C01.C01_stable", "RdVerif.C01.C01_oracle_factor", "RdVerif.C04.exact_inverses", "RdVerif.C04.exact_diagonalises", "RdVerif.C04.pattern_is_ancestors", "RdVerif.C04.float_aggregate_bound"]
 PARTIAL = {
     "C01_error_bound_partial": "the 1e-11 forward-error bound of the double-precision evaluation is not a Lean theorem; it is "
                                "checked for every generated input against the verified interval oracle (decayFactor_sound, "
